@@ -3,7 +3,9 @@
 Histories of operations on one future of every kind, run on the real classes; the Lean model
 (AsynqModel.Lib.Futures) replays the same history (correspondence) and the Lean observer `Futures.spec`
 (the statement of C10, proved of the model for all kinds and all histories) judges the implementation's
-observations on their own."""
+observations on their own.  Families judged by direct expectations in the driver (no model run): suspended, futsubs
+(notification rounds of batches / items / blocking tasks, across threads, with debug options switched in mid-flight),
+futcopy (copies of ConstFuture / ErrorFuture)."""
 import hashlib
 import json
 import random
@@ -18,6 +20,8 @@ HEADLINE = [
     "AsynqModel.Futures.C10_spec_enforces_runs",
     "AsynqModel.Futures.C10_spec_enforces_outcome",
     "AsynqModel.Futures.C10_spec_enforces_read",
+    "AsynqModel.Futures.C10_spec_enforces_notify",
+    "AsynqModel.Futures.C10_spec_enforces_set",
     "AsynqModel.Futures.C10_single_assignment",
     "AsynqModel.Futures.C10_stable_until_reset",
     "AsynqModel.Futures.C10_const_complete",
@@ -30,6 +34,7 @@ HEADLINE = [
     "AsynqModel.Futures.C10_subs_after_completion",
     "AsynqModel.Futures.C10_passive_subs_stay",
     "AsynqModel.Futures.C10_unsubscribed_not_notified",
+    "AsynqModel.Futures.C10_hook_failure_after_notification",
 ]
 # hold by construction of the model (one unfolding of `step`); audited for axioms like the others, but NOT claims about
 # the behaviour: their content is the correspondence run.  (The former C10_failed_set_noop / C10_reads_stable are now
@@ -37,6 +42,8 @@ HEADLINE = [
 BY_CONSTRUCTION = [
     "AsynqModel.Futures.C10_unsubscribe",
     "AsynqModel.Futures.C10_set_error_none",
+    "AsynqModel.Futures.C10_quiet_ops",
+    "AsynqModel.Futures.C10_hook_state",
 ]
 THEOREMS = HEADLINE + BY_CONSTRUCTION
 BUILDS = {"quick": ["py"], "thorough": ["py", "cy"]}
@@ -51,11 +58,25 @@ RULE = ("random operation histories (length 1-40, ops value/error/call/is_comput
         "family 'burst' = n subscribers (n = 5..257, mixed behaviours) + completion + reset + second completion; family "
         "'futsubs' = the same subscriber lists on batch items, batches, DebugBatchItem and blocking AsyncTasks, two "
         "completions each; family 'suspended' = suspended task completed from outside; non-trivial = history that "
-        "contains a completion (uncomputed -> computed) and at least 3 operations; distinct by (kind, history) hash")
+        "contains a completion (uncomputed -> computed) and at least 3 operations; distinct by (kind, history) hash. "
+        "Round 4 (feature interactions): operations 'option perf|dump 0|1' (a debug option switched while the future is in "
+        "flight; an AsyncTask created without profiler id - or, flag badarg, called with an argument whose repr() raises - "
+        "then fails in collect_perf_stats() between 'outcome stored' and 'subscribers notified': modelled, Cfg.statsOk), "
+        "'raiseIfError', 'inspect' (repr/str) which must not compute; family 'midflight' = every computing kind x every "
+        "completer x subscriber lists x where the switch happens x second completion; flag weak = nobody but the future "
+        "references the subscribers + gc.collect() before completions; futsubs: 19 more targets (debug batch cancelled / "
+        "flushed / constructed directly / debug.sync, cancel() without argument, tasks handed out by deduplicate, async_proxy, "
+        "asynq.result, pure=True, async_call, async_generator, a bound method of a copied object, ONE decorator object "
+        "applied to several functions, a body inside a scoped-value override), dimension thread (target created in another "
+        "thread / completed by another thread / both; systematically for every target), dimension optswhen (1-4 of 12 debug "
+        "options on for the whole case / switched on after creation+subscription / before the second round / on at creation "
+        "and off before the completion; systematically for every target); suspended: inside a scoped-value override / a user "
+        "AsyncContext, options switched on while suspended; family 'futcopy' = ConstFuture / ErrorFuture / none_future "
+        "constructed by copy.copy, copy.deepcopy, pickle protocols 0-5, __reduce__ (10 values)")
 TRUSTED = [
     "hand-written Lean model AsynqModel.Lib.Futures tied to the code by this differential run only",
     "Python harness checks/c10.py (token <-> object identity mapping, read-only peek after each operation)",
-    "qcore.EventHook.safe_trigger, CPython generator semantics",
+    "qcore.EventHook.safe_trigger, CPython generator semantics, threading / gc / copy / pickle of the standard library",
 ]
 ASSUMPTIONS = [
     "callbacks raise only Exception (BaseException from a subscriber is out of the statement's scope)",
@@ -69,11 +90,24 @@ ASSUMPTIONS = [
     "value() raise TypeError from the raise statement while error() returns the object - outside the statement)",
     "a subscriber does not call reset_unsafe() on the future that is notifying it (value() of that very call would return "
     "the internal 'not computed' marker; reset_unsafe is documented as never to be used normally)",
-    "single thread; completion paths of batches and batch items are C11's model - here only their notification rounds "
-    "are judged (family futsubs, same Lean clause notifiedAll, no theorem about how they complete)",
+    "one thread at a time touches a future (family futsubs creates the target in one thread and completes it in another, "
+    "one after the other; CONCURRENT access is out of scope); completion paths of batches and batch items are C11's model - "
+    "here only their notification rounds are judged (family futsubs, same Lean clause notifiedAll, no theorem about how "
+    "they complete)",
+    "what the operation that COMPLETES an AsyncTask returns when COLLECT_PERF_STATS is on and collect_perf_stats() cannot "
+    "run for that task (no profiler id because profiling was switched on after the task was created - pure Python only -, "
+    "or an argument whose repr() raises) is left open: the code hands the exception of that step to the completer AFTER "
+    "storing the outcome and notifying everybody (modelled: Exc.hook; accepted by the observer for exactly these tasks); "
+    "whether debug options may change what a call returns is C20's statement. Outcome, notifications, later reads and "
+    "refused sets are judged as always. Whether the step can run is probed once per worker on a task of its own "
+    "(perf_stats_step_fails_without_id) and handed to the model as Cfg.statsOk",
+    "copies (family futcopy): values compared by == and type, errors by type and args; only ConstFuture / ErrorFuture "
+    "('complete from construction'); a deep copy / unpickled copy of an UNCOMPUTED Future is outside the statement",
 ]
 KINDS = ["lazyOk", "lazyErr", "const", "error", "taskOk", "taskErr", "lazySelfSet"]
-OPS = ["value", "error", "call", "isComputed", "setValue", "setError", "reset", "subscribe", "unsubscribe"]
+OPS = ["value", "error", "call", "isComputed", "setValue", "setError", "reset", "subscribe", "unsubscribe",
+       "option", "raiseIfError", "inspect"]
+OPTION_NAMES = {"perf": "COLLECT_PERF_STATS", "dump": "DUMP_COMPUTED"}
 UNKNOWN = 999999
 CASE_TIMEOUT = 5     # a history takes milliseconds; a mutant that makes the scheduler spin must not cost 20 s per case
 NVALS = 9      # value tokens 0..9 (see make_objects)
@@ -82,7 +116,14 @@ RAISABLE = [1, 2, 3, 6]      # error tokens a Future provider may raise (Excepti
 TASK_RAISABLE = [1, 2, 3, 4, 6]   # a task body may also raise a BaseException-only error (AsyncTask stores it)
 BURST_SIZES = {"quick": [5, 9, 17, 33, 65, 129], "thorough": [5, 9, 17, 33, 65, 129, 257]}
 SUBS_TARGETS = ["item-value", "item-flush", "item-set", "item-cancel", "batch-flush", "batch-cancel", "batch-via-item",
-                "debugitem", "debugbatch", "task-blocked", "task-dep", "future-value", "future-in-task", "nested"]
+                "debugitem", "debugbatch", "task-blocked", "task-dep", "future-value", "future-in-task", "nested",
+                # round 4: more completion paths of the built-in debug batch, cancel() without argument, seldom used
+                # entry points that hand out tasks / futures
+                "item-cancel0", "batch-cancel0", "debugitem-sync", "debugitem-flush", "debugitem-cancel", "debugitem-cancel0",
+                "debugbatch-direct", "debugbatch-cancel", "debugbatch-cancel0", "task-result", "task-pure", "task-async-call",
+                "task-dedup", "task-proxy", "task-method", "task-shared", "task-ctx", "task-generator", "future-proxy"]
+THREADS = ["same", "create", "complete", "both"]
+OPTSWHEN = ["whole", "mid", "mid2", "offmid"]
 
 
 def kind_arg(rng, kind):
@@ -144,8 +185,14 @@ class _Ids(object):
         return ["subscribe", self.n] + beh
 
 
-def gen_op(rng, ids, allow_reset=True, plain=False):
-    o = rng.choices(OPS, weights=[5, 4, 2, 3, 3, 3, 2 if allow_reset else 0, 4, 1])[0]
+def gen_op(rng, ids, allow_reset=True, plain=False, quiet=1.0):
+    """`quiet` scales the weight of the operations that must leave the future alone: switching a debug option in
+    mid-flight, raise_if_error(), repr()/str()"""
+    o = rng.choices(OPS, weights=[5, 4, 2, 3, 3, 3, 2 if allow_reset else 0, 4, 1, 1.2 * quiet, 0.6 * quiet, 0.6 * quiet])[0]
+    if o == "option":
+        return [o, rng.choice(["perf", "perf", "dump"]), rng.choice([1, 1, 0])]
+    if o == "inspect":
+        return [o, rng.choice(["repr", "str"])]
     if o == "setValue":
         return [o, rng.randint(0, NVALS)]
     if o == "setError":
@@ -165,16 +212,38 @@ def gen_opts(rng):
     return rng.choice([["DUMP_COMPUTED"], ["COLLECT_PERF_STATS"], ["DUMP_COMPUTED", "COLLECT_PERF_STATS"]])
 
 
+# every debug option that has a branch on a completion path of a task / batch / batch item (async_task.py _queue_exit,
+# _queue_throw_error, _accept_error, _computed; batching.py flush, DebugBatch._flush / _cancel; futures.py _computed)
+WIDE_OPTS = ["DUMP_COMPUTED", "COLLECT_PERF_STATS", "DUMP_QUEUED_RESULTS", "DUMP_EXCEPTIONS", "DUMP_SYNC", "DUMP_FLUSH_BATCH",
+             "DUMP_STACK", "KEEP_DEPENDENCIES", "DUMP_NEW_TASKS", "DUMP_YIELD_RESULTS", "DUMP_SYNC_CALLS", "DUMP_CONTEXTS"]
+
+
+def gen_opts_wide(rng):
+    if rng.random() < 0.5:
+        return gen_opts(rng)
+    return sorted(rng.sample(WIDE_OPTS, rng.randint(1, 4)))
+
+
 def gen_case(rng, size=None):
     kind = rng.choice(KINDS)
     n = size if size is not None else rng.choice([1, 2, 3, 4, 6, 8, 12, 20, 40])
     ids = _Ids()
     allow_reset = rng.random() < 0.6
     plain = rng.random() < 0.25      # a quarter of the histories keep to well-behaved / raising subscribers
-    ops = [gen_op(rng, ids, allow_reset, plain) for _ in range(n)]
+    quiet = rng.choice([0.0, 1.0, 1.0, 3.0])
+    ops = [gen_op(rng, ids, allow_reset, plain, quiet) for _ in range(n)]
     case = {"kind": [kind, kind_arg(rng, kind)], "ops": ops}
     if rng.random() < 0.12:
         case["opts"] = gen_opts(rng)
+    if kind in ("taskOk", "taskErr") and rng.random() < 0.3:
+        # profiling switched on while the task is in flight: somewhere before the end of the history
+        ops.insert(rng.randint(0, len(ops)), ["option", "perf", 1])
+    if kind in ("taskOk", "taskErr") and rng.random() < 0.2:
+        case["badarg"] = True       # the task is called with an argument whose repr() raises
+        if rng.random() < 0.5:
+            case["opts"] = gen_opts(rng)
+    if rng.random() < 0.06:
+        case["weak"] = True
     return case
 
 
@@ -187,24 +256,78 @@ def burst_case(rng, n, kind=None):
     kind = kind or rng.choice([k for k in KINDS if k not in ("const", "error")])
     ids = _Ids()
     ops = [ids.subscribe_op(rng) for _ in range(n)]
+    mid = rng.random() < 0.35
+    if mid:     # a debug option switched on after the subscriptions, right before the completion
+        ops.append(["option", "perf" if kind in ("taskOk", "taskErr") else rng.choice(["perf", "dump"]), 1])
     ops.append(list(rng.choice(COMPLETERS)))
     ops += [["isComputed"], ["setValue", 1], ["value"]]
+    if mid and rng.random() < 0.5:
+        ops.append(["option", "perf", 0])
     if rng.random() < 0.5:
         ops.append(["unsubscribe", rng.choice(ids.known)])
     ops += [["reset"], list(rng.choice(COMPLETERS)), ["error"], ["reset"], list(rng.choice(COMPLETERS)), ["call"]]
     case = {"kind": [kind, kind_arg(rng, kind)], "ops": ops, "family": "burst"}
     if rng.random() < 0.12:
         case["opts"] = gen_opts(rng)
+    if rng.random() < 0.1:
+        case["weak"] = True
     return case
 
 
-def subs_case(rng, target, n):
+def midflight_cases(tier):
+    """a debug option switched while the future is in flight (after its creation, before / between its completions):
+    every kind that has a computation x every completing operation x a few subscriber lists x where the switch happens;
+    for AsyncTasks also the other way round (created under profiling, switched off before the completion)"""
+    res = []
+    sublists = [[], [["good"]], [["raising"], ["good"]], [["oneShot"], ["reenter", "val", 3], ["good"]]]
+    for kind in ("taskOk", "taskErr", "lazyOk", "lazyErr", "lazySelfSet"):
+        task = kind.startswith("task")
+        for comp in COMPLETERS:
+            for subs in (sublists if task or tier != "quick" else sublists[1:3]):
+                sub_ops = [["subscribe", i + 1] + b for i, b in enumerate(subs)]
+                for opt in (["perf"] if task else ["dump", "perf"]):
+                    for where in ("before-subs", "after-subs"):
+                        on = [["option", opt, 1]]
+                        ops = (on + sub_ops) if where == "before-subs" else (sub_ops + on)
+                        ops = ops + [list(comp), ["isComputed"], ["value"], ["setValue", 1], ["reset"]]
+                        for second in (["value"], ["setError", 2]):
+                            for off in ((False, True) if task else (False,)):
+                                tail = ([["option", opt, 0]] if off else []) + [list(second), ["error"], ["raiseIfError"]]
+                                res.append({"kind": [kind, 1], "ops": ops + tail, "family": "midflight"})
+                if task:
+                    # created under profiling (it has a profiler id), profiling switched off / on again in mid-flight;
+                    # the same with an argument that cannot be printed (the perf-stats step fails although there is an id)
+                    for subs2 in sublists[1:3]:
+                        sub_ops = [["subscribe", i + 1] + b for i, b in enumerate(subs2)]
+                        for toggles in ([], [["option", "perf", 0]], [["option", "perf", 0], ["option", "perf", 1]]):
+                            for bad in (False, True):
+                                c = {"kind": [kind, 1], "opts": ["COLLECT_PERF_STATS"], "family": "midflight",
+                                     "ops": sub_ops + toggles + [list(comp), ["value"], ["reset"], ["error"]]}
+                                if bad:
+                                    c["badarg"] = True
+                                if bad or toggles:
+                                    res.append(c)
+    return res
+
+
+def subs_case(rng, target, n, thread=None, optswhen=None):
     ids = _Ids()
     subs = [ids.subscribe_op(rng)[1:] for _ in range(n)]
-    return {"special": "futsubs", "target": target, "subs": subs, "nitems": rng.randint(1, 4), "which": rng.randint(0, 3),
+    case = {"special": "futsubs", "target": target, "subs": subs, "nitems": rng.randint(1, 4), "which": rng.randint(0, 3),
             "v1": rng.randint(0, NVALS - 3), "e1": rng.choice(RAISABLE), "v2": rng.randint(0, NVALS - 3),
             "second": rng.choice(["setValue", "setError"]), "prior": rng.random() < 0.3, "opts": gen_opts(rng) if rng.random() < 0.12 else [],
             "depth": rng.randint(1, 4), "pos": rng.randint(0, n)}
+    if target == "task-result" and case["v1"] == 6:
+        case["v1"] = 1          # asynq.result() refuses a future as the result
+    # which thread creates the target, which one completes it
+    case["thread"] = thread or rng.choices(THREADS, weights=[5, 2, 2, 1])[0]
+    if optswhen or rng.random() < 0.2:
+        # debug options switched while the target is in flight
+        case["opts"] = case["opts"] or gen_opts_wide(rng)
+        case["optswhen"] = optswhen or rng.choice(OPTSWHEN)
+    if rng.random() < 0.08:
+        case["weak"] = True
+    return case
 
 
 def corpus():
@@ -224,7 +347,8 @@ def plan(tier, seed):
     cases = corpus()
     # every kind x every single op and every pair of distinct op kinds (small exhaustive core)
     basic = [["value"], ["error"], ["call"], ["isComputed"], ["setValue", 2], ["setError", 2], ["setError", 0], ["reset"],
-             ["subscribe", 1, "good"], ["subscribe", 2, "raising"]]
+             ["subscribe", 1, "good"], ["subscribe", 2, "raising"], ["option", "perf", 1], ["raiseIfError"],
+             ["inspect", "repr"]]
     for k in KINDS + ["errorNone"]:
         for a in basic:
             for b in basic:
@@ -232,6 +356,11 @@ def plan(tier, seed):
                     cases.append({"kind": ["error", 0] if k == "errorNone" else [k, 1], "ops": [[*a], [*b], [*c]]})
     cases += [suspended_case(o, c, subs) for o in ("value", "error") for c in (False, True)
               for subs in ([], [0], [1], [0, 0], [1, 0], [0, 1, 0])]
+    # ... suspended inside a `with` block of an async context (scoped value override / user context), and / or with the
+    # debug options switched on while it is suspended
+    cases += [suspended_case(o, c, subs, ctx, opts) for o in ("value", "error") for c in (False, True)
+              for subs in ([0], [1, 0], [0, 1, 0]) for ctx in ("none", "scoped", "custom")
+              for opts in (None, ["COLLECT_PERF_STATS"], ["DUMP_COMPUTED", "COLLECT_PERF_STATS"]) if ctx != "none" or opts]
     # every kind x every pair of subscriber behaviours (+ a plain third subscriber) x completion, reset, second completion
     behs = [["good"], ["raising"], ["oneShot"], ["unsub", 1], ["unsub", 2], ["unsub", 3], ["resub", 500001],
             ["reenter", "val", 3], ["reenter", "err", 1]]
@@ -246,17 +375,31 @@ def plan(tier, seed):
                     cases.append({"kind": [k, 1], "family": "behpair",
                                   "ops": [["subscribe", 1] + a, ["subscribe", 2] + b2, ["subscribe", 3, "good"], list(comp),
                                           ["reset"], ["setValue", 3], ["unsubscribe", 3], ["reset"], ["value"]]})
+    cases += midflight_cases(tier)
+    cases += futcopy_cases()
     for size in BURST_SIZES[tier]:
         cases += [burst_case(rng, size) for _ in range(12 if tier == "quick" else 40)]
     for target in SUBS_TARGETS:
         for size in ([0, 1, 2, 3, 4, 6, 12, 40] if tier == "quick" else [0, 1, 2, 3, 4, 5, 6, 8, 12, 20, 40, 130]):
             cases += [subs_case(rng, target, size) for _ in range(4 if tier == "quick" else 12)]
+        # the interaction dimensions, systematically: every target x every thread arrangement, every target x every
+        # moment of switching the debug options (a few subscribers each)
+        for size in ([1, 3] if tier == "quick" else [1, 2, 3, 8]):
+            for thread in THREADS[1:]:
+                cases.append(subs_case(rng, target, size, thread=thread))
+            for when in OPTSWHEN[1:]:
+                cases.append(subs_case(rng, target, size, optswhen=when))
     cases += [gen_case(rng) for _ in range(n)]
     return cases
 
 
-def suspended_case(outside, cleanup_raises, subs):
-    return {"special": "suspended", "outside": outside, "cleanup": cleanup_raises, "subs": subs}
+def suspended_case(outside, cleanup_raises, subs, ctx="none", opts=None):
+    case = {"special": "suspended", "outside": outside, "cleanup": cleanup_raises, "subs": subs}
+    if ctx != "none":
+        case["ctx"] = ctx       # the task is suspended INSIDE a `with` block of an async context
+    if opts:
+        case["opts"], case["optswhen"] = opts, "mid"    # switched on while the task is suspended
+    return case
 
 
 def run_suspended(case):
@@ -267,9 +410,28 @@ def run_suspended(case):
     import asynq
     from asynq import batching
 
+    from asynq import _debug
     v1, e1, boom = ("v", 1), UserErr("outside"), RuntimeError("clean-up raises")
     holder = []
     log = []
+    ctx = case.get("ctx", "none")
+    sv = asynq.AsyncScopedValue(("outside",))
+    events = []
+
+    class Ctx(asynq.AsyncContext):
+        def resume(self):
+            events.append("resume")
+
+        def pause(self):
+            events.append("pause")
+
+    def block():
+        if ctx == "scoped":
+            return sv.override(("inside",))
+        if ctx == "custom":
+            return Ctx()
+        import contextlib
+        return contextlib.nullcontext()
 
     class B(batching.BatchBase):
         def _try_switch_active_batch(self):
@@ -278,6 +440,9 @@ def run_suspended(case):
 
         def _flush(self):
             t = holder[0]
+            if case.get("optswhen") == "mid":
+                for o in case.get("opts") or []:
+                    setattr(_debug.options, o, True)      # restored by run_case
             try:
                 if case["outside"] == "value":
                     t.set_value(v1)
@@ -297,11 +462,12 @@ def run_suspended(case):
 
     @asynq.asynq()
     def body():
-        try:
-            yield I()
-        finally:
-            if case["cleanup"]:
-                raise boom
+        with block():
+            try:
+                yield I()
+            finally:
+                if case["cleanup"]:
+                    raise boom
         return ("v", 2)
 
     asynq.scheduler.reset()
@@ -331,8 +497,13 @@ def run_suspended(case):
     asynq.scheduler.reset()
     lines = ["(case suspended %d %s %d %d)" % (case["id"], case["outside"], 1 if case["cleanup"] else 0, len(case["subs"])),
              "(result %s %s (%s))" % (out, out2, " ".join(seen)), "(end)"]
-    return {"lines": lines, "features": ["suspended-completed-outside"], "nontrivial": "susp-%s-%s-%s" % (
-        case["outside"], case["cleanup"], case["subs"])}
+    if ctx == "scoped" and sv.get() != ("outside",):
+        lines.insert(1, "(leak scoped-value-not-restored)")       # makes the case unparsable for the driver: reported
+    feats = ["suspended-completed-outside", "suspended-in-context=" + ctx]
+    if case.get("optswhen") == "mid":
+        feats.append("suspended-completed-under-options-switched-in-flight")
+    return {"lines": lines, "features": feats, "nontrivial": "susp-%s-%s-%s-%s-%s" % (
+        case["outside"], case["cleanup"], case["subs"], ctx, case.get("opts"))}
 
 
 def shrink(case):
@@ -347,8 +518,8 @@ def shrink(case):
                 c = dict(case)
                 c["subs"] = subs[:i] + [[sub[0], "good"]] + subs[i + 1:]
                 yield c
-        for flag, off in (("prior", False), ("opts", [])):
-            if case.get(flag):
+        for flag, off in (("prior", False), ("opts", []), ("weak", False), ("thread", "same")):
+            if case.get(flag) and case.get(flag) != off:
                 c = dict(case)
                 c[flag] = off
                 yield c
@@ -360,9 +531,9 @@ def shrink(case):
     if case.get("special"):
         return
     ops = case["ops"]
-    extra = {"opts": case["opts"]} if case.get("opts") else {}
-    if extra:
-        yield {"kind": case["kind"], "ops": ops}
+    extra = {k: case[k] for k in ("opts", "weak", "badarg") if case.get(k)}
+    for k in extra:
+        yield dict({j: v for j, v in extra.items() if j != k}, kind=case["kind"], ops=ops)
     for i in range(len(ops)):
         yield dict(extra, kind=case["kind"], ops=ops[:i] + ops[i + 1:])
     for i, o in enumerate(ops):
@@ -375,7 +546,7 @@ def shrink(case):
 def neighbours(case, rng):
     if case.get("special"):
         return
-    extra = {"opts": case["opts"]} if case.get("opts") else {}
+    extra = {k: case[k] for k in ("opts", "weak", "badarg") if case.get(k)}
     for k in KINDS:
         yield dict(extra, kind=[k, case["kind"][1] if k == case["kind"][0] else 1], ops=case["ops"])
     for _ in range(24):
@@ -394,6 +565,8 @@ def neighbours(case, rng):
 def signature(case, v):
     if case.get("special") == "futsubs":
         return "futsubs/%s/%s" % (case["target"], v["spec"])
+    if case.get("special") == "futcopy":
+        return "futcopy/%s/%s" % (case["what"], v["spec"])
     if case.get("special"):
         return "suspended/%s" % v["spec"]
     return "%s/%s" % (case["kind"][0], v["spec"])
@@ -470,14 +643,31 @@ class Hostile(object):
         raise RuntimeError("repr of the value raises")
 
 
+class BadRepr(object):
+    """an argument of a task that cannot be printed (AsyncTask.to_str formats the arguments with %r and only expects
+    RuntimeError)"""
+
+    def __init__(self, env):
+        self.env = env
+
+    def __repr__(self):
+        raise self.env.bad_repr_err
+
+
 class Env(object):
     """tokens <-> objects (by identity), the notification log and the subscriber callbacks; shared by the one-future
     histories and the futsubs family"""
 
-    def __init__(self, futures, share=None):
+    def __init__(self, futures, share=None, weak=False):
         self.futures = futures
+        # weak: the harness keeps NO strong reference to the subscribers it registers (only the future's on_computed does);
+        # together with gc.collect() before a completion this shows a handler list that does not keep its handlers alive
+        self.weak = weak
+        self.cancel_err = None
+        self.bad_repr_err = ValueError("repr of the task's argument raises")
         if share is not None:      # a second future watched in the same case: same objects, own log and handlers
             self.vals, self.errs = share.vals, share.errs
+            self.weak = share.weak
             self.cblog, self.handlers = [], {}
             self._index()
             return
@@ -490,6 +680,8 @@ class Env(object):
         self._index()
 
     def _index(self):
+        if not hasattr(self, "weakly"):
+            self.weakly = set()     # ids of the subscribers that are only weakly referenced from here
         self.val_tok = {id(v): k for k, v in self.vals.items() if v is not None}
         self.err_tok = {id(e): k for k, e in self.errs.items() if e is not None}
 
@@ -503,7 +695,13 @@ class Env(object):
         return self.val_tok.get(id(v), UNKNOWN)
 
     def et(self, e):
-        return self.err_tok.get(id(e), UNKNOWN)
+        t = self.err_tok.get(id(e))
+        if t is None and type(e).__name__ == "BatchCancelledError":
+            # the error the library itself creates for cancel() without argument: token 7, ONE instance per case
+            if self.cancel_err is None:
+                self.cancel_err = e
+            return 7 if e is self.cancel_err else UNKNOWN
+        return UNKNOWN if t is None else t
 
     def peek(self, f):
         if not f.is_computed():
@@ -517,6 +715,10 @@ class Env(object):
     def exc_res(self, e, unsub=False):
         if id(e) in self.err_tok:
             return "(raised user %d)" % self.err_tok[id(e)]
+        if e is self.cancel_err and e is not None:
+            return "(raised user 7)"
+        if (type(e) is AttributeError and "_id" in str(e)) or e is self.bad_repr_err:
+            return "(raised hook)"      # AsyncTask.collect_perf_stats() of a task without profiler id / unprintable argument
         if isinstance(e, self.futures.FutureIsAlreadyComputed):
             return "(raised alreadyComputed)"
         if isinstance(e, NotImplementedError):
@@ -528,8 +730,11 @@ class Env(object):
     def handler(self, sid):
         """the handler with that id; an id nobody subscribed is a function that is not in any handler list"""
         h = self.handlers.get(sid)
+        if self.weak and h is not None and sid in self.weakly:
+            h = h()      # None if nothing kept the subscriber alive
         if h is None:
             h = self.handlers[sid] = lambda f: None
+            self.weakly.discard(sid)
         return h
 
     def make_cb(self, sid, beh):
@@ -558,7 +763,12 @@ class Env(object):
                     rec[2] = "(unit)"
                 except BaseException as e:  # noqa
                     rec[2] = env.exc_res(e)
-        self.handlers[sid] = cb
+        if self.weak:
+            import weakref
+            self.handlers[sid] = weakref.ref(cb)
+            self.weakly.add(sid)
+        else:
+            self.handlers[sid] = cb
         return cb
 
     def take_cbs(self):
@@ -580,23 +790,64 @@ def op_str(op):
         return "subscribe %d %s" % (op[1], beh_str(op[2:]))
     if op[0] == "setError" and op[1] == 0:
         return "setErrorNone"
+    if op[0] == "inspect":
+        return "inspect"
     return " ".join(str(x) for x in op)
 
 
 def run_case(case):
-    if not case.get("opts"):
-        return run_case1(case)
     from asynq import _debug
-    old = {o: getattr(_debug.options, o) for o in case["opts"]}
-    for o in case["opts"]:
-        setattr(_debug.options, o, True)
+    names = sorted(set(OPTION_NAMES.values()) | set(case.get("opts") or []))
+    old = {o: getattr(_debug.options, o) for o in names}
+    whole = case.get("opts") and case.get("optswhen", "whole") == "whole"
+    if whole:
+        for o in case["opts"]:
+            setattr(_debug.options, o, True)
     try:
         r = run_case1(case)
     finally:
+        # whatever the case switched in mid-flight is switched back; a completion that failed half-way may have left
+        # the scheduler of this thread with an active task
         for o, v in old.items():
             setattr(_debug.options, o, v)
-    r["features"] += ["option=" + o for o in case["opts"]]
+        import asynq
+        asynq.scheduler.reset()
+    if case.get("opts"):
+        r["features"] += ["option=%s/%s" % (o, case.get("optswhen", "whole")) for o in case["opts"]]
     return r
+
+
+_PROBE = {}
+
+
+def perf_stats_step_fails_without_id():
+    """does `collect_perf_stats()` of an AsyncTask that was created while COLLECT_PERF_STATS was off raise when the task
+    completes under COLLECT_PERF_STATS?  (pure Python: AttributeError, the task has no `_id`; compiled: no.)  A fact about
+    the profiler, not about futures: probed once per worker on a task of its own and handed to the model as `Cfg.hasId`."""
+    if "fails" not in _PROBE:
+        import asynq
+        from asynq import _debug
+        old = _debug.options.COLLECT_PERF_STATS
+        _debug.options.COLLECT_PERF_STATS = False
+        try:
+            @asynq.asynq()
+            def body():
+                return 1
+                yield
+            t = body.asynq()
+            _debug.options.COLLECT_PERF_STATS = True
+            try:
+                t.value()
+                fails = False
+            except AttributeError as e:
+                fails = "_id" in str(e)
+            except BaseException:  # noqa
+                fails = False
+        finally:
+            _debug.options.COLLECT_PERF_STATS = old
+            asynq.scheduler.reset()
+        _PROBE["fails"] = fails
+    return _PROBE["fails"]
 
 
 def run_case1(case):
@@ -604,11 +855,20 @@ def run_case1(case):
         return run_suspended(case)
     if case.get("special") == "futsubs":
         return run_futsubs(case)
+    if case.get("special") == "futcopy":
+        return run_futcopy(case)
+    import gc
     import asynq
-    from asynq import futures
+    from asynq import futures, _debug
 
-    env = Env(futures)
+    env = Env(futures, weak=bool(case.get("weak")))
     vals, errs, vt, et = env.vals, env.errs, env.vt, env.et
+    perf0 = "COLLECT_PERF_STATS" in (case.get("opts") or [])
+    # can collect_perf_stats() of the task run?  AsyncTask.__init__ stores a profiler id only under COLLECT_PERF_STATS (the
+    # compiled class always has the field), and to_str() formats the arguments with %r
+    badarg = bool(case.get("badarg")) and case["kind"][0] in ("taskOk", "taskErr")
+    has_id = (perf0 or not perf_stats_step_fails_without_id()) and not badarg
+    task_args = (BadRepr(env),) if badarg else ()
     runs = [0]
     kind, arg = case["kind"]
 
@@ -637,29 +897,38 @@ def run_case1(case):
         fut = futures.ErrorFuture(errs[arg])
     elif kind == "taskOk":
         @asynq.asynq()
-        def body():
+        def body(*a):
             runs[0] += 1
             return vals[arg]
             yield
-        fut = body.asynq()
+        fut = body.asynq(*task_args)
     elif kind == "taskErr":
         @asynq.asynq()
-        def body():
+        def body(*a):
             runs[0] += 1
             raise errs[arg]
             yield
-        fut = body.asynq()
+        fut = body.asynq(*task_args)
     else:
         raise ValueError(kind)
     env.set_self(fut)
 
-    lines = ["(case futures %d %s %d)" % (case["id"], "errorNone" if (kind, arg) == ("error", 0) else kind, arg)]
+    lines = ["(case futures %d %s %d %d %d)" % (case["id"], "errorNone" if (kind, arg) == ("error", 0) else kind, arg,
+                                                 1 if has_id else 0, 1 if perf0 else 0)]
     completions = 0
     behs = set()
     was = fut.is_computed()
+    fresh_subs = False
+    perf_now, midflight, perf_seen = perf0, False, False
     for op in case["ops"]:
         del env.cblog[:]
         name = op[0]
+        if name == "raiseIfError" and not hasattr(fut, "raise_if_error"):
+            # the compiled classes do not export raise_if_error() (cdef inline in futures.pxd): describe the future instead
+            op, name = ["inspect", "repr"], "inspect"
+        if env.weak and fresh_subs and name in ("value", "error", "call", "setValue", "setError"):
+            gc.collect()
+            fresh_subs = False
         try:
             if name == "value":
                 res = "(ok %d)" % vt(fut.value())
@@ -682,6 +951,23 @@ def run_case1(case):
             elif name == "subscribe":
                 behs.add(beh_str(op[2:]).split()[0])
                 fut.on_computed.subscribe(env.make_cb(op[1], op[2:]))
+                fresh_subs = True
+                res = "(unit)"
+            elif name == "option":
+                setattr(_debug.options, OPTION_NAMES[op[1]], bool(op[2]))
+                if op[1] == "perf":
+                    perf_now = bool(op[2])
+                res = "(unit)"
+            elif name == "raiseIfError":
+                fut.raise_if_error()
+                res = "(unit)"
+            elif name == "inspect":
+                # what the description looks like (or that describing a hostile value fails) is not the point:
+                # describing a future must not compute it, change it or notify anybody
+                try:
+                    (repr if op[1] == "repr" else str)(fut)
+                except Exception:  # noqa
+                    pass
                 res = "(unit)"
             elif name == "unsubscribe":
                 fut.on_computed.unsubscribe(env.handler(op[1]))
@@ -697,6 +983,9 @@ def run_case1(case):
         now = fut.is_computed()
         if now and not was:
             completions += 1
+            if perf_now and not perf0 and kind in ("taskOk", "taskErr"):
+                midflight = True
+            perf_seen = perf_seen or perf_now
             if ncb:
                 behs.add("notified<=%d" % next(b for b in (1, 4, 16, 64, 10**9) if ncb <= b))
         was = now
@@ -708,6 +997,12 @@ def run_case1(case):
     feats.append("completions=%d" % min(completions, 3))
     if case.get("family"):
         feats.append("family=" + case["family"])
+    if midflight:
+        feats.append("task-completed-under-profiling-switched-on-in-flight" + ("" if has_id else "/perf-stats-step-fails"))
+    if badarg:
+        feats.append("task-with-unprintable-argument" + ("/completed-under-profiling" if perf_seen and completions else ""))
+    if env.weak:
+        feats.append("weak-subscribers+gc")
     if True:
         feats.append("arg=%s%d" % ("e" if kind in ("lazyErr", "taskErr", "error") else "v", arg))
     nontrivial = None
@@ -716,19 +1011,55 @@ def run_case1(case):
     return {"lines": lines, "features": feats, "nontrivial": nontrivial}
 
 
+_SHARED = {}
+_SERIAL = [0]
+
+
+def in_thread(fn):
+    """run fn() in a fresh thread that is gone when this returns: ("ok", result) | ("exc", exception) | ("hang", None)"""
+    import threading
+    box = []
+
+    def runner():
+        try:
+            box.append(("ok", fn()))
+        except BaseException as e:  # noqa
+            box.append(("exc", e))
+    t = threading.Thread(target=runner)
+    t.daemon = True
+    t.start()
+    t.join(CASE_TIMEOUT * 0.6)
+    return box[0] if box else ("hang", None)
+
+
 def run_futsubs(case):
     """notification rounds of futures outside the one-future model: batch items / batches of a user batch class,
-    DebugBatchItem / DebugBatch, AsyncTasks that block on an item or on another task, a Future awaited by a task.
+    DebugBatchItem / DebugBatch (also cancelled, constructed directly, debug.sync), AsyncTasks that block on an item or on
+    another task and are reached through the seldom used entry points (deduplicate, async_proxy, asynq.result,
+    pure=True, async_call, a bound method of a copied object, one decorator object shared by several functions, a body
+    inside a scoped-value override), a Future awaited by a task.
     Round 1 = the natural completion path of the target, round 2 = reset_unsafe() + set_value / set_error from outside.
-    After each round: a second set must raise FutureIsAlreadyComputed, value() and call must report the outcome."""
+    After each round: a second set must raise FutureIsAlreadyComputed, value() and call must report the outcome.
+    Dimensions: `thread` (the target is created in another thread / completed by another thread / both),
+    `optswhen` (debug options on for the whole case / switched on after creation+subscription / before round 2 /
+    on at creation and off before the completion), `weak` (nobody but the future keeps the subscribers alive)."""
+    import gc
     import asynq
-    from asynq import batching, futures
+    from asynq import batching, futures, _debug
 
-    env = Env(futures)
+    env = Env(futures, weak=bool(case.get("weak")))
     vals, errs = env.vals, env.errs
     target, nitems, which = case["target"], case["nitems"], case["which"] % case["nitems"]
     v1, e1 = vals[case["v1"]], errs[case["e1"]]
+    thread = case.get("thread", "same")
+    optswhen = case.get("optswhen", "whole") if case.get("opts") else "none"
     asynq.scheduler.reset()
+    _SERIAL[0] += 1
+    uniq = "c10-%d-%d" % (case["id"], _SERIAL[0])
+
+    def set_opts(on):
+        for o in case.get("opts") or []:
+            setattr(_debug.options, o, on)
 
     class B(batching.BatchBase):
         def _try_switch_active_batch(self):
@@ -758,69 +1089,223 @@ def run_futsubs(case):
         except UserErr:
             pass
 
-    if target.startswith("item-") or target.startswith("batch-"):
-        batch = cur[0]
-        items = [I() for _ in range(nitems)]
-        marked[0] = items[which]
-        if target.startswith("item-"):
-            fut = items[which]
-            if target == "item-value":
-                go = fut.value
-            elif target == "item-flush":
-                go = batch.flush
-            elif target == "item-set":
-                go = lambda: fut.set_value(v1)
-            else:
-                go = lambda: batch.cancel(e1)
-        else:
-            fut = batch
-            v1 = None
+    def create():
+        """-> (watched future, go, expected first outcome or None = v1)"""
+        if target.startswith("item-") or target.startswith("batch-"):
+            batch = cur[0]
+            items = [I() for _ in range(nitems)]
+            marked[0] = items[which]
+            if target.startswith("item-"):
+                fut = items[which]
+                if target == "item-value":
+                    return fut, fut.value, None
+                if target == "item-flush":
+                    return fut, batch.flush, None
+                if target == "item-set":
+                    return fut, (lambda: fut.set_value(v1)), None
+                if target == "item-cancel0":
+                    return fut, batch.cancel, "(err 7)"
+                return fut, (lambda: batch.cancel(e1)), "(err %d)" % case["e1"]
             if target == "batch-flush":
-                go = batch.flush
-            elif target == "batch-via-item":
-                go = items[which].value
+                return batch, batch.flush, "(val 0)"          # a flushed batch holds None
+            if target == "batch-via-item":
+                return batch, items[which].value, "(val 0)"
+            if target == "batch-cancel0":
+                return batch, batch.cancel, "(err 7)"         # cancel() without argument: the library's own error
+            return batch, (lambda: batch.cancel(e1)), "(err %d)" % case["e1"]
+        if target.startswith("debug"):
+            if target == "debugbatch-direct":
+                # a DebugBatch constructed directly (public class): it is in no thread's table of active debug batches
+                batch = batching.DebugBatch(uniq)
+                items = []
+
+                class PlainItem(batching.BatchItemBase):    # (the compiled base class has no room for `_result`)
+                    pass
+                for k in range(nitems):
+                    it = PlainItem(batch)
+                    it._result = v1 if k == which else ("other", k)
+                    items.append(it)
+            elif target == "debugitem-sync":
+                items = [asynq.debug.sync(uniq) for _ in range(nitems)]
+                batch = items[0].batch
             else:
-                go = lambda: batch.cancel(e1)
-    elif target == "debugitem":
-        fut = batching.DebugBatchItem("c10-%d" % case["id"], v1)
-        go = fut.value
-    elif target == "debugbatch":
-        it = batching.DebugBatchItem("c10b-%d" % case["id"], v1)
-        fut = it.batch
-        v1 = None
-        go = it.value
-    elif target == "task-blocked":
-        @asynq.asynq()
-        def body():
-            yield [I() for _ in range(nitems)]
-            return v1
-        fut = body.asynq()
-        go = fut.value
-    elif target == "task-dep":
-        @asynq.asynq()
-        def leaf():
-            yield I()
-            return v1
+                items = [batching.DebugBatchItem(uniq, v1 if k == which else ("other", k)) for k in range(nitems)]
+                batch = items[0].batch
+            it = items[which]
+            if target == "debugitem":
+                return it, it.value, None
+            if target == "debugitem-sync":
+                return it, it.value, "(val 0)"
+            if target == "debugitem-flush":
+                return it, batch.flush, None
+            if target == "debugitem-cancel":
+                return it, (lambda: batch.cancel(e1)), "(err %d)" % case["e1"]
+            if target == "debugitem-cancel0":
+                return it, batch.cancel, "(err 7)"
+            if target in ("debugbatch", "debugbatch-direct"):
+                return batch, (it.value if target == "debugbatch" else batch.flush), "(val 0)"
+            if target == "debugbatch-cancel":
+                return batch, (lambda: batch.cancel(e1)), "(err %d)" % case["e1"]
+            if target == "debugbatch-cancel0":
+                return batch, batch.cancel, "(err 7)"
+            raise ValueError(target)
+        if target == "task-blocked":
+            @asynq.asynq()
+            def body():
+                yield [I() for _ in range(nitems)]
+                return v1
+            fut = body.asynq()
+            return fut, fut.value, None
+        if target == "task-dep":
+            @asynq.asynq()
+            def leaf():
+                yield I()
+                return v1
 
-        @asynq.asynq()
-        def body():
-            r = yield leaf.asynq()
-            return r
-        fut = body.asynq()
-        go = fut.value
-    elif target in ("future-value", "nested"):
-        fut = futures.Future(lambda: v1)
-        go = fut.value
-    elif target == "future-in-task":
-        fut = futures.Future(lambda: v1)
+            @asynq.asynq()
+            def body():
+                r = yield leaf.asynq()
+                return r
+            fut = body.asynq()
+            return fut, fut.value, None
+        if target == "task-result":
+            @asynq.asynq()
+            def body():
+                yield I()
+                asynq.result(v1)        # ends the task through AsyncTaskResult instead of `return`
+                return ("not reached",)
+            fut = body.asynq()
+            return fut, fut.value, None
+        if target == "task-pure":
+            @asynq.asynq(pure=True)
+            def body():
+                yield I()
+                return v1
+            fut = body()                # a pure async function returns its task when it is called
+            return fut, fut.value, None
+        if target == "task-async-call":
+            @asynq.asynq()
+            def body(a, k=None):
+                yield I()
+                return v1
+            fut = asynq.async_call.asynq(body, 1, k=2)
+            return fut, fut.value, None
+        if target == "task-dedup":
+            from asynq import tools
 
-        @asynq.asynq()
-        def waiter():
-            r = yield fut
-            return r
-        go = waiter
-    else:
+            @tools.deduplicate()
+            @asynq.asynq()
+            def body(k):
+                yield I()
+                return v1
+            fut = body.asynq(1)
+            again = body.asynq(1)       # the in-flight task is shared: the subscribers below sit on the shared task
+            if again is not fut:
+                raise AssertionError("deduplicate returned a second task for the same key")
+            return fut, fut.value, None
+        if target == "task-proxy":
+            @asynq.asynq()
+            def leaf():
+                yield I()
+                return v1
+
+            @asynq.async_proxy()
+            def proxy():
+                return leaf.asynq()
+            fut = proxy.asynq()         # the proxy hands the leaf's task through
+            return fut, fut.value, None
+        if target == "task-method":
+            import copy
+
+            class Holder(object):
+                @asynq.asynq()
+                def method(self):
+                    yield I()
+                    return v1
+            h = copy.copy(Holder())     # a copied object: its bound async method is bound anew
+            fut = h.method.asynq()
+            return fut, fut.value, None
+        if target == "task-shared":
+            # ONE decorator object applied to several functions (and reused by every later case of this worker)
+            deco = _SHARED.get("deco")
+            if deco is None:
+                deco = _SHARED["deco"] = asynq.asynq()
+
+            @deco
+            def first():
+                yield I()
+                return ("first",)
+
+            @deco
+            def second():
+                yield I()
+                return v1
+            other = first.asynq()
+            fut = second.asynq()
+
+            def both():
+                try:
+                    other.value()
+                except Exception:  # noqa  (under options switched in mid-flight the completer may get an exception)
+                    pass
+                return fut.value()
+            return fut, both, None
+        if target == "task-generator":
+            @asynq.async_generator()
+            def produce():
+                yield I()
+                yield asynq.Value(v1)
+            fut = next(produce())       # the task that computes the first Value of an async generator
+            return fut, fut.value, None
+        if target == "task-ctx":
+            sv = asynq.AsyncScopedValue(("outside",))
+
+            @asynq.asynq()
+            def body():
+                with sv.override(("inside",)):
+                    yield I()
+                    ok = sv.get() == ("inside",)
+                return v1 if ok else ("scoped value lost",)
+            fut = body.asynq()
+            return fut, fut.value, None
+        if target in ("future-value", "nested"):
+            fut = futures.Future(lambda: v1)
+            return fut, fut.value, None
+        if target == "future-in-task":
+            fut = futures.Future(lambda: v1)
+
+            @asynq.asynq()
+            def waiter():
+                r = yield fut
+                return r
+            return fut, waiter, None
+        if target == "future-proxy":
+            fut = futures.Future(lambda: v1)
+
+            @asynq.async_proxy()
+            def proxy():
+                return fut
+
+            @asynq.asynq()
+            def waiter():
+                r = yield proxy.asynq()
+                return r
+            return fut, waiter, None
         raise ValueError(target)
+
+    if optswhen in ("whole", "offmid"):
+        set_opts(True)
+    if thread in ("create", "both"):
+        st, made = in_thread(create)
+        if st != "ok":
+            raise made if st == "exc" else RuntimeError("creating the target in another thread hangs")
+    else:
+        made = create()
+    fut, go, first = made
+    if target.startswith("batch-") or target.startswith("debugbatch"):
+        v1 = None
+    if first is None:
+        first = "(val %d)" % case["v1"]
 
     lines = ["(case futsubs %d %s %d)" % (case["id"], target, len(case["subs"]))]
     # the watched futures: (env, future, its lines); every one gets its own instances of the case's subscribers
@@ -840,11 +1325,16 @@ def run_futsubs(case):
         if pos >= len(case["subs"]):
             fut_k.on_computed.subscribe(lambda f, nxt=watched[level + 1][1]: nxt.set_value(v1))
 
-    def one_round(go, expected):
+    def one_round(go, expected, elsewhere=False):
         for env_k, _, _ in watched:
             del env_k.cblog[:]
+        if env.weak:
+            gc.collect()
         try:
-            go()
+            if elsewhere:
+                in_thread(go)
+            else:
+                go()
         except BaseException as e:  # noqa  (item-cancel etc. do not raise; a raise shows in the reads below)
             if type(e).__name__ == "CaseTimeout":
                 raise
@@ -866,15 +1356,15 @@ def run_futsubs(case):
                 cbs += " " + env_k.take_cbs()
             lines_k.append("(round %s (%s) %s %s %s %s)" % (out, cbs, again, reads[0], reads[1], expected))
 
-    if target in ("item-cancel", "batch-cancel"):
-        first = "(err %d)" % case["e1"]
-    elif target in ("batch-flush", "batch-via-item", "debugbatch"):
-        first = "(val 0)"          # a flushed batch holds None
-    else:
-        first = "(val %d)" % case["v1"]
-    one_round(go, first)
+    if optswhen == "mid":
+        set_opts(True)
+    elif optswhen == "offmid":
+        set_opts(False)
+    one_round(go, first, elsewhere=thread in ("complete", "both"))
     for _, fut_k, _ in watched:
         fut_k.reset_unsafe()
+    if optswhen == "mid2":
+        set_opts(True)
     if target == "nested":
         v1 = vals[case["v2"]]      # the inner handlers pass v1 on: every level completes with the second value
         one_round(lambda: fut.set_value(v1), "(val %d)" % case["v2"])
@@ -890,5 +1380,113 @@ def run_futsubs(case):
     behs = sorted({"sub=" + beh_str(sub[1:]).split()[0] for sub in case["subs"]})
     feats = ["family=futsubs", "target=" + target, "nsubs<=%d" % next(b for b in (0, 1, 4, 16, 64, 10**9) if len(case["subs"]) <= b)]
     feats += behs
-    key = hashlib.sha1(json.dumps([target, case["subs"], case["second"]]).encode()).hexdigest()[:16] if case["subs"] else None
+    feats.append("thread=" + thread)
+    if optswhen not in ("none", "whole"):
+        feats.append("options-%s/%s" % (optswhen, target.split("-")[0]))
+    if env.weak:
+        feats.append("weak-subscribers+gc")
+    key = hashlib.sha1(json.dumps([target, case["subs"], case["second"], thread, optswhen]).encode()).hexdigest()[:16] if case["subs"] else None
     return {"lines": lines, "features": feats, "nontrivial": key}
+
+
+COPY_VALUES = {0: None, 1: ("v", 1), 2: 0, 3: "", 4: False, 5: [1, [2, 3]], 6: {"k": ("v", 2)}, 7: 2 ** 70, 8: b"\x00bytes",
+               9: frozenset([1, 2])}
+COPY_HOW = ["copy", "deepcopy", "pickle0", "pickle1", "pickle2", "pickle3", "pickle4", "pickle5", "reduce"]
+
+
+def futcopy_cases():
+    res = []
+    for how in COPY_HOW:
+        for v in sorted(COPY_VALUES):
+            res.append({"special": "futcopy", "what": "const", "how": how, "v": v})
+        for what in ("none_future", "error", "errorNone"):
+            if how != "reduce" or what == "none_future":      # only ConstFuture defines __reduce__ itself
+                res.append({"special": "futcopy", "what": what, "how": how, "v": 1})
+    return res
+
+
+def run_futcopy(case):
+    """ConstFuture and ErrorFuture are complete from construction - also when the construction is done by copy.copy(),
+    copy.deepcopy() or pickle (ConstFuture.__reduce__; asynq/tests/test_futures.py pickles a ConstFuture): the copy is
+    computed, reports an outcome equal to the original's (value by ==, error by type and args), refuses a second
+    set_value / set_error, does not compute anything, and the original is untouched.  Direct expectation in the driver
+    (mode futcopy); no theorem."""
+    import copy
+    import pickle
+    from asynq import futures
+
+    what, how = case["what"], case["how"]
+    v = COPY_VALUES[case["v"]]
+    err = ValueError("the error of the original", 42)
+    if what == "const":
+        orig = futures.ConstFuture(v)
+    elif what == "none_future":
+        orig, v = futures.none_future, None
+    elif what == "error":
+        orig = futures.ErrorFuture(err)
+    else:
+        orig, v = futures.ErrorFuture(None), None
+    is_err = what == "error"
+    out = {"made": 0, "computed": 0, "same": 0, "reads": 0, "again": "(unit)", "kept": 0, "orig": 0}
+    try:
+        if how == "copy":
+            dup = copy.copy(orig)
+        elif how == "deepcopy":
+            dup = copy.deepcopy(orig)
+        elif how == "reduce":
+            fn, args = orig.__reduce__()[:2]
+            dup = fn(*args)
+        else:
+            dup = pickle.loads(pickle.dumps(orig, int(how[6:])))
+        out["made"] = 1
+    except BaseException as e:  # noqa
+        dup = None
+        out["again"] = "(raised other %s)" % type(e).__name__
+
+    def outcome_ok(f):
+        """value() / call / error() of f report the original's outcome (twice)"""
+        for _ in range(2):
+            if is_err:
+                e = f.error()
+                if type(e) is not ValueError or e.args != err.args:
+                    return False
+                for rd in (f.value, f):
+                    try:
+                        rd()
+                        return False
+                    except ValueError as x:
+                        if x is not e:
+                            return False
+            else:
+                if f.error() is not None:
+                    return False
+                for rd in (f.value, f):
+                    r = rd()
+                    if type(r) is not type(v) or r != v:
+                        return False
+        return True
+
+    if dup is not None:
+        try:
+            out["computed"] = 1 if dup.is_computed() is True else 0
+            out["same"] = 1 if out["computed"] and outcome_ok(dup) else 0
+            try:
+                if case["v"] % 2:
+                    dup.set_value(("another value",))
+                else:
+                    dup.set_error(RuntimeError("another error"))
+            except BaseException as e:  # noqa
+                out["again"] = "(raised alreadyComputed)" if isinstance(e, futures.FutureIsAlreadyComputed) else \
+                    "(raised other %s)" % type(e).__name__
+            out["kept"] = 1 if dup.is_computed() is True and outcome_ok(dup) else 0
+        except BaseException as e:  # noqa
+            out["again"] = "(raised other %s)" % type(e).__name__
+    try:
+        out["orig"] = 1 if orig.is_computed() is True and outcome_ok(orig) and (is_err or orig.value() is v) else 0
+    except BaseException:  # noqa
+        pass
+    lines = ["(case futcopy %d %s %s)" % (case["id"], what, how),
+             "(result %d %d %d %s %d %d)" % (out["made"], out["computed"], out["same"], out["again"], out["kept"], out["orig"]),
+             "(end)"]
+    return {"lines": lines, "features": ["family=futcopy", "copy=%s/%s" % (what, how.rstrip("012345"))],
+            "nontrivial": "futcopy-%s-%s-%d" % (what, how, case["v"])}
